@@ -418,6 +418,7 @@ def module_consts(repo, f):
         pass
     consts = Consts()
     consts.exprs = {}
+    defs_ = {st.name for st in f.module.tree.body if isinstance(st, (ast.FunctionDef, ast.ClassDef))}
     # constants defined from other constants (MASK = (1 << SHIFT) - 1) fold once those are known
     for _round in range(3):
         for nm, v in f.module.assigns.items():
@@ -430,7 +431,7 @@ def module_consts(repo, f):
         if isinstance(k, (int, float, str)) and not isinstance(k, bool):
             consts[nm] = k
         elif normal._pure_expr(v) and not any(isinstance(x, ast.Name) and x.id not in ('np', 're', 'numpy') and x.id not in f.module.assigns
-                                               and x.id not in f.module.imports for x in ast.walk(v)):
+                                               and x.id not in f.module.imports and x.id not in defs_ for x in ast.walk(v)):
             consts.exprs[nm] = v
     return consts
 
